@@ -363,7 +363,39 @@ def _mk():
         return [[s.value] * n_ if x is None else x for s, x in zip(srcs, fin)]
 
     def b_zip(it, a, k, n):
-        return [tuple(x) for x in zip(*seqs_of(it, a))]
+        from .values import GenV, LiveIter, OneShot, Repeat
+
+        shared = [s for s in a if isinstance(s, (OneShot, GenV, LiveIter)) and sum(1 for t in a if t is s) > 1]
+        if not shared:
+            return [tuple(x) for x in zip(*seqs_of(it, a))]
+        # the same iterator object in several positions (the grouper idiom zip(*[iter(xs)] * k)): every
+        # position draws from the one stream in turn, and the row in progress is lost when it runs dry
+        pools: Dict[int, Any] = {}
+        for s in a:
+            if id(s) not in pools:
+                pools[id(s)] = None if isinstance(s, Repeat) else list(seq_of(it, s))
+        pos = [0] * len(a)
+        cursor = {id(s): 0 for s in shared}
+        rows = []
+        while True:
+            row = []
+            for i_, s in enumerate(a):
+                pool = pools[id(s)]
+                if pool is None:
+                    row.append(s.value)
+                    continue
+                if id(s) in cursor:
+                    j_ = cursor[id(s)]
+                    cursor[id(s)] = j_ + 1
+                else:
+                    j_ = pos[i_]
+                    pos[i_] = j_ + 1
+                if j_ >= len(pool):
+                    return rows
+                row.append(pool[j_])
+            rows.append(tuple(row))
+            if len(rows) > 20000:
+                raise Unsupported("zip over endless iterables only")
 
     def b_staticmethod(kind):
         def f(it, a, k, n):
@@ -589,6 +621,8 @@ def _mk():
             return b_iter(it, [it.call_function(m_it, [], {}, n)], k, n)
         if isinstance(v, (list, tuple, dict, set, frozenset, range, Shape)) or isinstance(v, A._DictItems):
             return OneShot(it.concrete_iter(v))  # a fresh one-shot iterator over the current elements
+        if isinstance(v, Obj) and isinstance(v.attrs.get("_modules"), dict):
+            return OneShot(list(v.attrs["_modules"].values()))  # an nn container iterates its entries
         return v
 
     def b_filter(it, a, k, n):
